@@ -153,9 +153,17 @@ def one_dataset(obs, rng, conv, kw, spec):
                           for n in invalid for x, y in model.cells[n])
     if invalid_on_hull:
         obs.cls('extent:invalid-cell-on-hull-bounds-not-asserted')
+    orphans = getattr(getattr(model, 'mesh', None), 'orphans', [])
+    orphan_outside = any(not (want_bounds[0] <= model.mesh.x[n] <= want_bounds[2] and want_bounds[1] <= model.mesh.y[n] <= want_bounds[3])
+                         for n in orphans)
+    if orphans:
+        obs.cls('extent:mesh-with-orphan-nodes')
+    if orphan_outside:
+        obs.cls('extent:orphan-node-outside-the-hull')
     if not isinstance(bounds, Failed) and not invalid_on_hull:
         obs.expect(len(bounds) == 4 and all(abs(a - b) <= 1e-9 for a, b in zip(bounds, want_bounds)),
-                   'bounds == bounding box of the cell polygons', lambda: {'got': bounds, 'want': want_bounds}, mech='bounds-wrong')
+                   'bounds == bounding box of the cell polygons', lambda: {'got': bounds, 'want': want_bounds},
+                   mech='ugrid-bounds-orphan-nodes' if orphan_outside else 'bounds-wrong')
     if not isinstance(geometry, Failed):
         area = union.area
         diff = geometry.symmetric_difference(union).area if geometry is not None else float('inf')
